@@ -22,7 +22,7 @@ ASSUMPTIONS = ["gateway models in gateways/sim.py (reports in bus order, one out
                "daliserver: status 0 none, 1 answer, 255 garbled; ATX hat: 'N' none, 'Jhh' answer"]
 EXHAUSTIVE = {"quick": False, "thorough": False}
 REQUIRED_ANCHORS = {"all": ["sends_checked", "silent_outcomes", "value_outcomes", "error_outcomes", "multi_caller_runs",
-                            "daliserver_checked", "atx_checked", "dfs_runs", "integration_runs", "abandon_runs", "queries_abandoned", "drivers_tridonic", "drivers_hasseb", "drivers_luba", "drivers_sci"]}
+                            "daliserver_checked", "atx_checked", "dfs_runs", "integration_runs", "abandon_runs", "queries_abandoned", "twin_runs", "drivers_tridonic", "drivers_hasseb", "drivers_luba", "drivers_sci"]}
 SPURIOUS_DRIVERS = ("tridonic", "hasseb")
 SHARD_TIMEOUT = {"quick": 600, "thorough": 3000}
 
@@ -35,6 +35,8 @@ def plan(tier, seed):
         for p in range(parts):
             sh.append({"kind": "async", "driver": d, "part": p, "n": n // parts})
     sh.append({"kind": "sync"})
+    for d in simlib.DRIVERS:
+        sh.append({"kind": "twin", "driver": d, "n": 60 if tier == "quick" else 1500})
     for d in ("tridonic", "hasseb"):
         sh.append({"kind": "abandon", "driver": d, "n": 150 if tier == "quick" else 3000})
     # the library's own sequences through each driver against the unit models, compared with a direct run (props/integ.py)
@@ -336,6 +338,74 @@ def run_abandon_case(driver, seed, i, res):
                               f"{pause}s later send({c}): the bus gave {ans}, the caller received "
                               f"{None if raw is None else ('error' if raw.error else raw.as_integer)!r}", wit)
                 return
+    finally:
+        sim.close()
+
+
+def run_twin_case(driver, seed, i, res):
+    """Two gateways of the same kind, two driver instances, one process: the same commands go out on both buses at the
+    same time and each driver hands its callers the answers of its own bus."""
+    from dali import frame as F
+    r = rng(seed, "C16", "twin", driver, i)
+    cmds = [simlib.make_command(r, r.choice(simlib.KINDS[driver]), 0, k, driver) for k in range(r.randint(3, 8))]
+
+    def mk_answer(salt):
+        def answer(width, value, idx, dt):
+            from gateways.sim import is_query
+            if not is_query(width, value, dt):
+                return None
+            ra = rng(seed, "C16", "twin-answer", salt, width, value)
+            c = ra.random()
+            return None if c < 0.2 else ("ok", (ra.getrandbits(8) & 0x7F) | (0x80 if salt else 0))
+        return answer
+    picker = simlib.Picker(r)
+    sim = simlib.Sim(driver, picker, answer=mk_answer(0), answer2=mk_answer(1))
+    got = {0: {}, 1: {}}
+
+    async def caller(which, drv):
+        await asyncio.sleep(r.choice([0, 0.001, 0.01]))
+        for k, c in enumerate(cmds):
+            try:
+                got[which][k] = ("ok", await drv.send(c))
+            except Exception as e:
+                got[which][k] = ("exc", e)
+
+    async def main(sim):
+        await sim.connect()
+        await asyncio.gather(caller(0, sim.driver), caller(1, sim.driver2))
+        await asyncio.sleep(0.5)
+        return True
+    out, stalled = sim.run(main)
+    res.evaluations += 1
+    res.hit("twin_runs")
+    wit = {"driver": driver, "seed": seed, "case": i, "twin": True, "commands": [str(c) for c in cmds], "picks": picker.log[:30]}
+    try:
+        if simlib.detached(out):
+            res.inconclusive.append("harness detached: " + str(out))
+            return
+        if stalled or out is not True:
+            res.violation(f"C16/{driver}/twin/hang-or-crash", f"two driver instances: ended with {'a stall' if stalled else repr(out)}", wit)
+            return
+        for which, bus in ((0, sim.bus), (1, sim.bus2)):
+            for k, c in enumerate(cmds):
+                st, val = got[which].get(k, ("exc", "missing"))
+                if st == "exc":
+                    res.violation(f"C16/{driver}/twin/send-raised/{type(val).__name__}", f"instance {which}: send({c}) raised {val!r}", wit)
+                    return
+                if c.response is None:
+                    if val is not None:
+                        res.violation(f"C16/{driver}/twin/answer-for-non-query", f"instance {which}: send({c}) returned {val!r}", wit)
+                    continue
+                ent = [w for w in bus.wire if (w["width"], w["value"]) == (len(c.frame), c.frame.as_integer)]
+                ans = ent[-1]["answer"] if ent else "not-sent"
+                raw = getattr(val, "raw_value", "missing")
+                ok = type(val) is c.response and ((ans is None and raw is None) or
+                                                  (isinstance(ans, tuple) and raw is not None and not raw.error and raw.as_integer == ans[1]))
+                if not ok:
+                    res.violation(f"C16/{driver}/twin/wrong-answer",
+                                  f"two {driver} drivers in one process: instance {which} sent {c}, its bus gave {ans}, the caller received "
+                                  f"{None if raw is None else raw.as_integer if hasattr(raw, 'as_integer') else raw!r}", {**wit, "instance": which})
+                    return
     finally:
         sim.close()
 
@@ -657,7 +727,9 @@ def run_shard(desc, tier, seed):
     if "replay" in desc:
         for w in desc["replay"]["witnesses"]:
             x = w["witness"]
-            if x.get("abandon"):
+            if x.get("twin"):
+                run_twin_case(x["driver"], x["seed"], x["case"], res)
+            elif x.get("abandon"):
                 run_abandon_case(x["driver"], x["seed"], x["case"], res)
             elif "sequences" in x:
                 from props import integ
@@ -669,7 +741,14 @@ def run_shard(desc, tier, seed):
                 run_daliserver(seed, res)
                 run_atx(seed, res)
         return res
-    if desc["kind"] == "abandon":
+    if desc["kind"] == "twin":
+        for i in range(desc["n"]):
+            try:
+                run_twin_case(desc["driver"], seed, i, res)
+            except Exception as e:
+                res.inconclusive.append("harness error (twin): " + short_tb(e))
+                break
+    elif desc["kind"] == "abandon":
         for i in range(desc["n"]):
             try:
                 run_abandon_case(desc["driver"], seed, i, res)
